@@ -194,6 +194,14 @@ Theorem C19_layout_stride_injective : forall t e ss idx idx', wf_ity t -> wf_ext
 Proof. exact strided_map_injective. Qed.
 Print Assumptions C19_layout_stride_injective.
 
+(* a layout_stride mapping constructed from the strides of a layout_left / layout_right mapping is that mapping
+   (same strides, same offsets, for every argument) *)
+Theorem C19_layout_stride_of_contiguous : forall l t e idx, wf_ity t ->
+  strided_map t (strided_ctor t e (lay_strides l t e)) idx = lay_map l t e idx
+  /\ st_strides (strided_ctor t e (lay_strides l t e)) = lay_strides l t e.
+Proof. exact strided_of_contiguous. Qed.
+Print Assumptions C19_layout_stride_of_contiguous.
+
 (** * layout_transpose *)
 Theorem C19_transpose_formula : forall l t ne i j, wf_ity t -> rank ne = 2%nat ->
   in_range [i; j] (rev (extents_list t ne)) -> product (extents_list t ne) <= imax t ->
@@ -276,7 +284,8 @@ Print Assumptions C19_submdspan_extents.
    rank, pattern, index type and slice choice meeting the precondition of [mdspan.sub.extents]
    (0 <= first <= last <= extent, 0 <= index < extent) the builder does not overflow and returns a well-formed
    extents object with exactly the kept dimensions: extent and static-ness of the full_extent ones,
-   last - first with a dynamic extent for the pair ones *)
+   last - first with a dynamic extent for the pairs of run-time values, last - first with the static extent
+   last - first for the pairs of integral constants (the code after fix 4c4e37b) *)
 Theorem C19_submdspan_extents_pairs : forall t e sl, wf_ity t -> wf_ext t e ->
   Forall2 slice_ok sl (extents_list t e) ->
   exists r, sub_extents_p t e sl = Some r
@@ -383,6 +392,20 @@ Theorem C19_span_static_dynamic_agree : forall s o c, size_ok s -> sp_consistent
 Proof. exact sp_static_dynamic_agree. Qed.
 Print Assumptions C19_span_static_dynamic_agree.
 
+(* as_bytes / as_writable_bytes: for every element size and every object representation [repr] of that size the
+   byte view starts at byte offset data()*sizeof(T), has size()*sizeof(T) bytes, static extent sizeof(T)*N, and
+   designates exactly the object representations of the span's elements *)
+Theorem C19_span_as_bytes : forall (A B : Type) (repr : A -> list B) (esz : Z) (buf : list A) s,
+  0 < esz -> (forall x, Z.of_nat (length (repr x)) = esz) ->
+  sp_valid buf s -> sp_consistent s -> Z.of_nat (length buf) * esz < 18446744073709551616 ->
+  let r := sp_as_bytes esz s in
+  s_off r = s_off s * esz /\ s_size r = s_size s * esz
+  /\ s_ext r = match s_ext s with Some n => Some (esz * n) | None => None end
+  /\ sp_elems (flat_map repr buf) r = flat_map repr (sp_elems buf s)
+  /\ sp_consistent r.
+Proof. exact sp_as_bytes_spec. Qed.
+Print Assumptions C19_span_as_bytes.
+
 (** * the representability hypothesis is necessary *)
 Theorem C19_narrow_index_wraps :
   let e := ext_from_pack i8 [None; None] [16; 16] in
@@ -426,7 +449,8 @@ Example C19_nonvacuous :
   /\ sp_sub_d (mk_span None 1 4) 1 (Some 2) = Ok (mk_span None 2 2)
   /\ sp_elems [10; 11; 12; 13; 14] (mk_span None 2 2) = [12; 13]
   /\ Forall2 slice_ok [SlFull; SlPair 1 3; SlIndex 0] (extents_list i32 e)
-  /\ option_map (extents_list i32) (sub_extents_p i32 e [SlFull; SlPair 1 3; SlIndex 0]) = Some [2; 2].
+  /\ option_map (extents_list i32) (sub_extents_p i32 e [SlFull; SlPair 1 3; SlIndex 0]) = Some [2; 2]
+  /\ option_map pat (sub_extents_p i32 e [SlCPair 0 2; SlPair 1 3; SlFull]) = Some [Some 2; None; Some 4].
 Proof.
   cbv zeta. repeat split; try (vm_compute; intuition congruence); try (repeat constructor; vm_compute; congruence).
   - exists [(2, 4); (3, 1)]. split; [apply Permutation_refl | cbn; lia].
